@@ -423,6 +423,22 @@ func corrFull(args []string) {
 			fj, _ := json.Marshal(map[string]interface{}{"kind": "fail", "key": key, "what": what, "case": s})
 			orc.Printf("%s\n", fj)
 		}
+		if class == "OK" && res.file != nil {
+			// C12_valid on the real result: File.Validate and (File.Validate does not descend into them) every IAT batch
+			bad := ""
+			if err := res.file.Validate(); err != nil {
+				bad = "file: " + cut(err.Error(), 140)
+			}
+			for i := range res.file.IATBatches {
+				if err := res.file.IATBatches[i].Validate(); err != nil && bad == "" {
+					bad = "iat batch: " + cut(err.Error(), 140)
+				}
+			}
+			if bad != "" {
+				fj, _ := json.Marshal(map[string]interface{}{"kind": "fail", "key": "flatten:full:result-invalid", "what": "FlattenBatches returns a file that does not validate: " + bad, "case": s})
+				orc.Printf("%s\n", fj)
+			}
+		}
 		distinct[digest(line)] = true
 		if len(samples) < 3 {
 			samples = append(samples, cut(string(js), 300))
@@ -488,6 +504,7 @@ func replayFull(path string) int {
 		fmt.Println("recipe does not build:", err)
 		return 2
 	}
+	f2, _ := buildFull(s)
 	line := serializeFull(f)
 	if len(line) > 2000 {
 		line = line[:2000] + " ..."
@@ -501,6 +518,18 @@ func replayFull(path string) int {
 	if !strings.HasPrefix(o, "OK") {
 		fmt.Println("FAIL: FlattenBatches does not succeed on this valid file")
 		return 1
+	}
+	if res := flatten(f2); res.file != nil {
+		if err := res.file.Validate(); err != nil {
+			fmt.Println("FAIL: the flattened file does not validate:", err)
+			return 1
+		}
+		for i := range res.file.IATBatches {
+			if err := res.file.IATBatches[i].Validate(); err != nil {
+				fmt.Println("FAIL: an IAT batch of the flattened file does not validate:", err)
+				return 1
+			}
+		}
 	}
 	return 0
 }
